@@ -9,12 +9,22 @@ Tie (i): harness/h_wire.c `u` operations (ASan+UBSan build) against the extracte
 Tie (ii) / exploration: structure-aware mutations of real transcripts in every state reached by a
 prefix of a legal handshake (h_wire `cap` / `x`), verdict = no sanitizer report, documented return
 code, call returns, 0 <= inlen <= insize <= SSL_MAX_BUF_SIZE, LeakSanitizer clean after delete.
+Uninitialised memory (no compiler flag, same ASan build): the exploration runs with the unused stack painted 0xfe
+before every API call and at paint points inside the parsers (after psParseBufFromStaticData, psParseTlsVariableLengthVec,
+psParseBufCopyN, sslUpdateHSHash, tls13TranscriptHashUpdate return) and fresh heap blocks filled 0xbe; the legal trace
+of every configuration, every corpus / directed case and a deterministic sample of the exploration (all of it in
+thorough) are run again in fresh children under other stack paints / heap fills and every observable (result line:
+return codes, alert, hash and length of bytes queued and of plaintext delivered, state, expectedName, ALPN) must be
+identical (`uninit:stack:*` / `uninit:heap:*`); `u paint` is the positive control of the painter.  A length
+argument handed to psParseBufCopyN that claims more room than the target object has is reported by the capacity audit
+(`uninit:arg:*`): a slot the compiler re-uses inside the frame cannot be painted from outside.
 The message / extension parsers behind the modelled framing are explored only (EXPLORED_ONLY)."""
 import json, os, re, subprocess, sys, time
 import vlib
 
 WRAPS = ["psGetBrokenDownGMTime", "psGetEntropy", "psGetPrngLocked", "psGetTime", "csAesGcmEncryptTls13",
-         "csChacha20Poly1305IetfEncryptTls13", "sslUpdateHSHash"]
+         "csChacha20Poly1305IetfEncryptTls13", "sslUpdateHSHash",
+         "psParseBufFromStaticData", "psParseTlsVariableLengthVec", "psParseBufCopyN", "tls13TranscriptHashUpdate"]   # paint points
 
 CFGS = ["t11", "t12", "t12cbc", "t12rsa", "t12ca", "t12ec", "t13", "t13ca", "t13cha", "d12", "d12ca", "d12cbc", "d12f", "d10"]
 DTLS = {"d12", "d12ca", "d12cbc", "d12f", "d10"}
@@ -120,8 +130,9 @@ def hs_hdr(cfg, t, L, msn=0, off=0, fl=None):
     return h
 
 
-def capture(h, cfgs):
-    rc, out, err = vlib.sh([h], inp="".join("cap %s\n" % c for c in cfgs), timeout=300)
+def capture(h, cfgs, env=None):
+    rc, out, err = vlib.sh([h], inp="".join("cap %s\n" % c for c in cfgs), timeout=300, env=(dict(os.environ, **env) if env else None))
+    capture.raw = dict(zip(cfgs, out.split("\n")))
     caps = {}
     for c, l in zip(cfgs, out.split("\n")):
         m = re.match(r"cap n=(\d+) rc=(-?\d+) done=(\d\d) \|(.*)", l)
@@ -491,7 +502,7 @@ def build_cases(caps, rng, per_state, classes_seen):
     return cases
 
 
-def run_parallel(h, lines, nproc=4, timeout=3000):
+def run_parallel(h, lines, nproc=4, timeout=3000, env=None):
     """run case lines through nproc harness processes (lines of one state stay together); returns outputs in order"""
     groups, cur, key = [], [], None
     for i, l in enumerate(lines):
@@ -507,7 +518,8 @@ def run_parallel(h, lines, nproc=4, timeout=3000):
     procs = []
     for b in buckets:
         b.sort()
-        p = subprocess.Popen([h], stdin=subprocess.PIPE, stdout=subprocess.PIPE, stderr=subprocess.PIPE, text=True, errors="replace")
+        p = subprocess.Popen([h], stdin=subprocess.PIPE, stdout=subprocess.PIPE, stderr=subprocess.PIPE, text=True, errors="replace",
+                             env=(dict(os.environ, **env) if env else None))
         procs.append((p, b))
     import threading
     outs = [None] * len(lines); errs = []
@@ -534,8 +546,64 @@ def signature(res):
     if res.startswith("BADRC "): return ("badrc:%s" % res[6:].split("@")[0], "undocumented return code %s" % res[6:])
     if res.startswith("BOUNDS "): return ("bounds:inlen-insize", "buffer bookkeeping outside 0 <= inlen <= insize <= SSL_MAX_BUF_SIZE: %s" % res[7:])
     if res.startswith("FRAGSIZE "): return ("fragsize:reassembly", "handshake reassembly buffer of %s bytes (limit 64 KB + header)" % res[9:])
+    if res.startswith("ARGCAP "): return ("uninit:arg:%s" % res[7:].split(":")[0], "a length argument claims more room than the target object has (uninitialised / stale length): %s" % res[7:])
     if res.startswith("CRASH "): return ("crash:%s" % res[6:].replace(" ", ","), "child died without a sanitizer report: %s" % res)
     return ("harness:%s" % res.split()[0] if res else "harness:empty", "unexpected harness output %r" % res[:200])
+
+
+# ------------------------------------------------------------------ uninitialised memory: paint differential
+# Same case, fresh child, different paint of the unused stack (C08_PAINT: before every API call and at the paint points
+# inside the parsers) resp. of freshly malloc'ed blocks (ASan malloc_fill_byte): every observable must be identical.
+BASE_PAINT = ("sFE/hBE", {"C08_PAINT": "fe"})          # the exploration itself runs painted: stack 0xfe, heap ASan's 0xbe
+PAINTS = [("stack", "s00", {"C08_PAINT": "00"}),
+          ("heap", "h00", {"C08_PAINT": "fe", "ASAN_OPTIONS": "malloc_fill_byte=0"}),
+          ("stack", "s5A", {"C08_PAINT": "5a"}),
+          ("heap", "hFE", {"C08_PAINT": "fe", "ASAN_OPTIONS": "malloc_fill_byte=254"})]
+
+
+def first_difference(a, b):
+    """name of the first observable that differs between two result lines"""
+    if a.startswith("FAULT") or b.startswith("FAULT"):
+        f = (a if a.startswith("FAULT") else b)[6:].split(":")
+        return f[1] if len(f) > 1 else "fault"
+    if a.split(" ", 1)[0] != b.split(" ", 1)[0]:
+        return (a.split(" ", 1)[0] + "-vs-" + b.split(" ", 1)[0]).lower()
+    if a.startswith("cap "):
+        ta, tb = a.split(), b.split()
+        for i, (x, y) in enumerate(zip(ta, tb)):
+            if x != y: return "legal-trace:unit%s" % x.split(":")[0] if ":" in x else "legal-trace"
+        return "legal-trace"
+    for x, y in zip(a.split(), b.split()):
+        if x != y: return x.split("=")[0]
+    return "length"
+
+
+def paint_differential(ck, h, lines, labels, base, npaints):
+    """base = the result lines of the (painted) main run for the same cases"""
+    base_name, base_env = BASE_PAINT
+    nd = 0
+    # positive control: under every paint used, a frame opened after a paint point sees only the paint byte
+    bad = []
+    for env in [base_env] + [p[2] for p in PAINTS[:npaints]]:
+        _, o, _ = ck.run_lines(h, ["u paint"], env=dict(os.environ, **env))
+        want = "paint:%s-%s" % (env["C08_PAINT"], env["C08_PAINT"])
+        if [x.strip() for x in o if x.strip()] != [want]: bad.append("%s: %r" % (want, o))
+    ck.obligation("harness:stack_painter_effective", not bad, detail="; ".join(bad))
+    for (kind, name, env) in PAINTS[:npaints]:
+        outs, _ = run_parallel(h, lines, nproc=4, env=env)
+        for l, lab, a, b in zip(lines, labels, base, outs):
+            ck.count("paint:%s" % name)
+            if a != b:
+                nd += 1
+                what = first_difference(a, b)
+                ck.spec_violation("uninit:%s:%s" % (kind, what),
+                                  "behaviour depends on uninitialised %s memory: paint %s gives `%s`, paint %s gives `%s` (class %s)" % (
+                                      kind, base_name, a[:160], name, b[:160], lab),
+                                  {"harness": "h_wire", "case": l, "env": [base_env, env], "observed": [a[:600], b[:600]],
+                                   "expected_by_spec": "identical observables under every paint"})
+    ck.cov["paint_differential_cases"] = len(lines)
+    ck.cov["paint_differential_runs"] = npaints + 1
+    return nd
 
 
 def corpus_lines(sub):
@@ -915,7 +983,7 @@ def is_finding_free(impl_line):
 
 # ------------------------------------------------------------------ the check
 def explore(ck, h, quick_per_state, thorough_per_state):
-    caps = capture(h, CFGS)
+    caps = capture(h, CFGS, env=BASE_PAINT[1])
     bad = [c for c in CFGS if caps.get(c, (None,))[0] is None]
     for c in CFGS:
         units, done = caps.get(c, (None, ""))
@@ -931,7 +999,7 @@ def explore(ck, h, quick_per_state, thorough_per_state):
     corp = corpus_lines("x")
     lines = corp + lines
     t = time.time()
-    outs, errs = run_parallel(h, lines, nproc=4)
+    outs, errs = run_parallel(h, lines, nproc=4, env=BASE_PAINT[1])
     ck.log("exploration: %d cases (%d corpus, %d classes, %d states) in %.1fs" % (len(lines), len(corp), len(classes),
            sum(len(caps[c][0]) for c in caps if caps[c][0]), time.time() - t))
     nfind = 0
@@ -953,7 +1021,7 @@ def explore(ck, h, quick_per_state, thorough_per_state):
     sn = corpus_lines("sni")
     if sn:
         want = b"sni.example.test".hex()
-        so, _ = run_parallel(h, sn, nproc=2)
+        so, _ = run_parallel(h, sn, nproc=2, env=BASE_PAINT[1])
         for l, o in zip(sn, so):
             ck.count("x:directed-sni")
             sg = signature(o)
@@ -964,6 +1032,17 @@ def explore(ck, h, quick_per_state, thorough_per_state):
                 ck.spec_violation("uninit:sni", "server_name of the ClientHello not recorded: expectedName = %s (uninitialised copiedLen handed to psParseBufCopyN)" % (m.group(1) if m else None),
                                   {"harness": "h_wire", "case": l, "observed": o, "expected_by_spec": "sni=" + want})
         lines = lines + sn
+    # paint differential: legal traces of every configuration, all corpus / directed cases, a deterministic sample of
+    # the exploration (every case in thorough)
+    step = ck.budget(8, 1)
+    ncorp = len(corp)
+    idx = list(range(ncorp)) + list(range(ncorp, ncorp + len(cases), step))
+    pl = ["cap %s" % c for c in CFGS] + [lines[i] for i in idx] + sn
+    pb = [capture.raw.get(c, "") for c in CFGS] + [outs[i] for i in idx] + (so if sn else [])
+    lab = ["legal-trace"] * len(CFGS) + ["corpus" if i < ncorp else cases[i - ncorp][0] for i in idx] + ["directed-sni"] * len(sn)
+    t = time.time()
+    nd = paint_differential(ck, h, pl, lab, pb, ck.budget(2, 4))
+    ck.log("paint differential: %d cases x %d further paints, %d differences, %.1fs" % (len(pl), ck.budget(2, 4), nd, time.time() - t))
     ck.cov["evaluations"] += len(lines)
     ck.cov["exploration_cases"] = len(lines)
     ck.cov["exploration_findings"] = nfind
@@ -976,9 +1055,11 @@ def run(ck):
     ck.trusted += ["Coq 8.16.1 kernel (coqc; vm_compute only in the witness lemmas and Examples)",
                    "tools/srcgen/consts.c, consts_dtls.c, consts_wire.c translators (C compiler / psVerFromEncoding evaluate the constants and the version table)",
                    "extraction (ExtrOcamlBasic only) + ocaml/drv_c08.ml",
-                   "harness/h_wire.c + sess.h (ASan+UBSan+LSan build; link-time wraps of entropy/clock, sslUpdateHSHash (logging), matrixSslDecode (scripted for `u api`); decrypt/verifyMac spies and null cipher through the ssl_t function pointers)",
+                   "harness/h_wire.c + sess.h (ASan+UBSan+LSan build; link-time wraps of entropy/clock, sslUpdateHSHash (logging), matrixSslDecode (scripted for `u api`), psParseBufFromStaticData / psParseTlsVariableLengthVec / psParseBufCopyN / tls13TranscriptHashUpdate (stack paint points, capacity audit); decrypt/verifyMac spies and null cipher through the ssl_t function pointers)",
                    "modelled, not verified: coq/Wire/WireModel.v is a hand-written transcription of the framing code, compared with the library on every run",
-                   "gcc AddressSanitizer / UndefinedBehaviorSanitizer / LeakSanitizer as the oracle for faults outside the model"]
+                   "gcc AddressSanitizer / UndefinedBehaviorSanitizer / LeakSanitizer as the oracle for faults outside the model",
+                   "uninitialised memory: paint differential only - a read is seen when it changes an observable and the slot lies in stack "
+                   "below a paint point or in a fresh malloc block (<= 64 KB filled); slots re-used inside one frame and values kept in registers are not painted"]
     ck.assumptions += ["record-layer session state is well formed: recordHeadLen is 13 exactly for sessions created with SSL_FLAGS_DTLS (matrixssl.c 615-636; checked by the `u hdr` probes)",
                        "oracle contracts (coq/Wire/WireSpec.v dec_contract): on MATRIXSSL_SUCCESS / DTLS_RETRANSMIT / SSL_ALERT / SSL_PROCESS_DATA the decoder moved *buf by at most *len and by at least 1 when data is left; an SSL_SEND_RESPONSE fits inbuf and (appended) SSL_MAX_BUF_SIZE; MATRIXSSL_ERROR carries a documented negative code - the modelled header/CCS/handshake loops are proved to satisfy the first part, the unmodelled parsers are explored only",
                        "the application passes matrixSslReceivedData at most the room matrixSslGetReadbuf returned",
